@@ -169,9 +169,9 @@ def run_scenario(sc, work, fixed_cache):
         orig = orig.rstrip(b"\r\n")
     elif sc.get("transform") == "trailws":
         # trailing blanks that no enabled rule objects to (the scenario disables whitespace_001)
-        orig = orig + b"-- the end   \n"
+        orig = orig + b"\n-- the end   \n"        # (after a blank line: a comment directly below 'end architecture;' would itself be a fixable violation)
     elif sc.get("transform") == "trailws_tagged":
-        orig = orig + b"-- vsg_off whitespace_001\n-- the end   \n-- vsg_on\n"
+        orig = orig + b"\n-- vsg_off whitespace_001\n-- the end   \n-- vsg_on\n"
     target = os.path.join(d, "t.vhd")
     with open(target, "wb") as f:
         f.write(orig)
